@@ -1,7 +1,6 @@
 package checks
 
 import (
-	"encoding/json"
 	"fmt"
 
 	"github.com/dtn7/dtn7-go/verif/ev"
@@ -9,7 +8,7 @@ import (
 )
 
 func init() {
-	All["C13"] = Check{Level: "model_checking", Run: runC13, Replay: func(kind string, c json.RawMessage) (string, bool) { return nhReplayCmd(c) }}
+	All["C13"] = Check{Level: "model_checking", Run: runC13, Replay: nhReplayAny}
 	nhChecks["c13"] = c13Def
 }
 
